@@ -234,9 +234,10 @@ func (g *gossipNode) Genesis() beacon.GenesisInfo {
 // ---- oracle ----
 
 const (
-	expAccept  = "accept"  // every condition holds
-	expTiming  = "timing"  // only a condition that an honest sender can fail through timing fails
-	expInvalid = "invalid" // a validity condition fails
+	expInvalidOrTiming = "invalid" // (alias: a validity condition fails; never ACCEPT)
+	expAccept          = "accept"  // every condition holds
+	expTiming          = "timing"  // only a condition that an honest sender can fail through timing fails
+	expInvalid         = "invalid" // a validity condition fails
 )
 
 func (s *sim) judge(g *gossipNode, topic, what, expect string, res gossipval.GossipValidatorResult, p *panicInfo) {
@@ -513,6 +514,30 @@ func (s *sim) gossipSlot(slot uint64, blk *blockRec, parent *blockRec, hb *state
 				})
 				s.judge(g, "attestation", what+" for a block not seen yet", expTiming, res, p)
 				g.known[head.root] = true
+			case mode == 9 && head.slot > startSlot && head.parent != (common.Root{}): // target that is not the head vote's ancestor at the epoch start
+				bad := *att
+				bad.Data.Target.Root = head.root // the head itself is later than the epoch start: not the checkpoint root
+				if bad.Data.Target.Root != att.Data.Target.Root {
+					bad.Signature = w.keys.sign(ki, signingRoot(bad.Data.HashTreeRoot(tree.GetHashFn()), attDom))
+					res, p := validate(func() gossipval.GossipValidatorResult {
+						_, x := gossipval.ValidateAttestation(ctx, subnet, &bad, g)
+						return x
+					})
+					s.judge(g, "attestation", what+" whose target is not the checkpoint of its epoch on the voted chain", expInvalidOrTiming, res, p)
+				}
+			case mode == 10: // vote for a block from a later slot than the vote
+				if blk != nil && blk.slot == slot && slot > 0 {
+					bad := *att
+					bad.Data.Slot = common.Slot(slot - 1)
+					bad.Data.BeaconBlockRoot = blk.root
+					if w.epochOf(slot-1) == epoch {
+						res, p := validate(func() gossipval.GossipValidatorResult {
+							_, x := gossipval.ValidateAttestation(ctx, subnet, &bad, g)
+							return x
+						})
+						s.judge(g, "attestation", what+" re-dated before the block it votes for", expInvalid, res, p)
+					}
+				}
 			case mode == 8: // the shuffling state cannot be reached in time
 				g.timeout = true
 				res, p := validate(func() gossipval.GossipValidatorResult {
@@ -790,6 +815,12 @@ func (s *sim) gossipSlot(slot uint64, blk *blockRec, parent *blockRec, hb *state
 					res, p := run(subnet, m)
 					s.judge(g, "sync_committee", what+" for a past slot", expTiming, res, p)
 					g.nowMs = save
+				case 3:
+					bad := *m
+					bad.BeaconBlockRoot = fnvRoot("unknown-sync-root", slot)
+					bad.Signature = w.keys.sign(ki, signingRoot(bad.BeaconBlockRoot, dom))
+					res, p := run(subnet, &bad)
+					s.judge(g, "sync_committee", what+" for a block root the node has never seen", expTiming, res, p)
 				}
 				if s.stop {
 					return
